@@ -291,14 +291,18 @@ int cmdRandom(int argc, char** argv) {
 				if (nif.Load(samplePath(fn)) != 0) { fclose(out); return 0; }
 				auto& hdr = nif.GetHeader();
 				for (size_t s = 0; s < steps; s++) {
-					std::string act = randomGraphOp(nif, r);
+					// every third step is a NifFile-level edit on nodes and shapes (a composite of the header operations)
+					std::string mact = (s % 3 == 2) ? randomModelOp(nif, r) : std::string();
+					std::string act = mact.empty() ? randomGraphOp(nif, r) : mact;
 					UidMap um;
 					ProjOpts po;
 					std::string pre = project(nif, um, po);
-					applyGraphOp(nif, jparse(act));
+					if (mact.empty()) applyGraphOp(nif, jparse(act));
+					else applyModelOp(nif, jparse(act));
+					nif.LinkGeomData();
 					std::string post = project(nif, um, po);
-					fprintf(out, "{\"e\":\"step\",\"file\":%s,\"step\":%zu,\"a\":%s,\"pre\":%s,\"post\":%s}\n", J::str(fn).s.c_str(), s, act.c_str(),
-							pre.c_str(), post.c_str());
+					fprintf(out, "{\"e\":\"%s\",\"file\":%s,\"step\":%zu,\"a\":%s,\"pre\":%s,\"post\":%s}\n", mact.empty() ? "step" : "mstep", J::str(fn).s.c_str(), s,
+							act.c_str(), pre.c_str(), post.c_str());
 					fflush(out);
 				}
 				{
